@@ -3,13 +3,15 @@ import numpy as np
 
 from props import backends_common as bc
 from props import gauss_common as gc
+from props import bosonic_model as bm
 from vlib import sfgen
 
 PROP = "C07"
 LEVEL = "proof"
-COQ_DIRS = ["C07"]
-COQ_TARGETS = ["Gen/GaussCirc.vo", "Base/GaussTac.vo", "Base/PhaseSpace.vo", "C07/GaussPhysical.vo", "C07/Symplectic.vo"]
+COQ_DIRS = ["C07", "Bosonic"]
+COQ_TARGETS = ["Gen/GaussCirc.vo", "Base/GaussTac.vo", "Base/PhaseSpace.vo", "C07/GaussPhysical.vo", "C07/Symplectic.vo"] + list(bm.COQ_TARGETS)
 PROPERTIES_FILE = "Properties/C07.v"
+EXTRA_PROPERTIES_FILES = [bm.PROPERTIES_FILE]
 ALLOWED_AXIOMS = set()
 TRANSLATORS = [gc.translate_gausscirc]
 RULE = ("(a) generated-function correspondence as in C05; (b) physicality search: random circuits (weak correlated prefix + 1-4 random "
@@ -32,6 +34,7 @@ UNITARY = list(sfgen.GAUSSIAN_GATES)
 
 
 def correspondence(ctx):
+    bm.correspondence_bosonic(ctx, predicates=('weights', 'symmetric', 'spectator'))
     failing = gc.correspondence_generated(ctx, ctx.budget(240, 3000), tag="c07")
     if failing is None:
         return
@@ -229,6 +232,8 @@ c05_names_f = [x for x in c05_names_g if x not in ("ThermalLossChannel", "Therma
 
 def replay(ctx, data):
     d = data["data"]
+    if str(d.get("check", "")).startswith("bosonic"):
+        return bm.replay_bosonic(ctx, data)
     if d.get("check") == "fock-top":
         v = eval_fock_top_level(d["case"])
         print("fock top level:", v)
